@@ -12,6 +12,7 @@ FAMILIES = {
     "paths": "harness.check_paths",
     "clone": "harness.check_clone",
     "merge": "harness.check_merge",
+    "links": "harness.check_links",
 }
 # property -> families whose judges print verdicts for it
 PROPS = {
@@ -20,6 +21,7 @@ PROPS = {
     "C14": ["paths"],
     "C11": ["clone", "values"],
     "C13": ["merge"],
+    "C12": ["links"],
 }
 EXPLAIN = {}
 
